@@ -343,7 +343,11 @@ func bigSnapshot(c *Ctx, cfg Cfg, size int, script string) []Violation {
 				if how == "and-late" {
 					s = k.s.And("A", ">=", -5)
 					if s.Err() != nil {
-						b.fail("and-late-err", k.name+".And after the writes failed: "+s.Err().Error())
+						if deletedSome {
+							// an unindexed refinement reads the members: a deleted one may be reported
+							continue
+						}
+						b.fail("and-late-err", k.name+".And after the writes failed although no member was deleted: "+s.Err().Error())
 						return
 					}
 				}
